@@ -529,6 +529,7 @@ var_opt_sketch<T, A> var_opt_sketch<T, A>::deserialize(const void* bytes, size_t
   if (is_gadget) {
     uint8_t val = 0;
     marks = std::unique_ptr<bool, marks_deleter>(AllocBool(allocator).allocate(array_size), marks_deleter(array_size, allocator));
+    std::fill(marks.get(), marks.get() + array_size, false);
     const size_t size_marks = (h / 8) + (h % 8 > 0 ? 1 : 0);
     check_memory_size(ptr - base + size_marks, size);
     for (uint32_t i = 0; i < h; ++i) {
@@ -612,6 +613,7 @@ var_opt_sketch<T, A> var_opt_sketch<T, A>::deserialize(std::istream& is, const S
   std::unique_ptr<bool, marks_deleter> marks(nullptr, marks_deleter(array_size, allocator));
   if (is_gadget) {
     marks = std::unique_ptr<bool, marks_deleter>(AllocBool(allocator).allocate(array_size), marks_deleter(array_size, allocator));
+    std::fill(marks.get(), marks.get() + array_size, false);
     uint8_t val = 0;
     for (uint32_t i = 0; i < h; ++i) {
       if ((i & 0x7) == 0x0) { // should trigger on first iteration
@@ -969,6 +971,7 @@ void var_opt_sketch<T, A>::allocate_data_arrays(uint32_t tgt_size, bool use_mark
 
   if (use_marks) {
     marks_ = AllocBool(allocator_).allocate(tgt_size);
+    std::fill(marks_, marks_ + tgt_size, false);
   } else {
     marks_ = nullptr;
   }
@@ -1005,6 +1008,7 @@ void var_opt_sketch<T, A>::grow_data_arrays() {
       for (uint32_t i = 0; i < prev_size; ++i) {
         tmp_marks[i] = marks_[i];
       }
+      std::fill(tmp_marks + prev_size, tmp_marks + curr_items_alloc_, false);
       AllocBool(allocator_).deallocate(marks_, prev_size);
       marks_ = tmp_marks;
     }
